@@ -197,7 +197,12 @@ struct Fixture {
     // hash of every buffer of the source side (particles and cells) / of the target side
     u64 tsmDigest(const bool source) const {
         u64 h = 0x77;
-        auto addBuf = [&](const unsigned char* p, size_t n){ h = hcomb(h, n); for(size_t i = 0 ; i < n ; ++i) h = hcomb(h, p[i]); };
+        auto addBuf = [&](const unsigned char* p, size_t n){
+            h = hcomb(h, n);
+            size_t i = 0;
+            for( ; i + 8 <= n ; i += 8){ u64 v; std::memcpy(&v, p+i, 8); h = hcomb(h, v); }
+            for( ; i < n ; ++i) h = hcomb(h, p[i]);
+        };
         for(long l = 0 ; l < spec.height ; ++l){
             if(source) for(const auto& g : treeTsm->getCellGroupsAtLevelSource(l)){ addBuf(g.getDataPtr(), size_t(g.getDataSize())); addBuf(g.getMultipolePtr(), size_t(g.getMultipoleSize())); addBuf(g.getLocalPtr(), size_t(g.getLocalSize())); }
             else for(const auto& g : treeTsm->getCellGroupsAtLevelTarget(l)){ addBuf(g.getDataPtr(), size_t(g.getDataSize())); addBuf(g.getMultipolePtr(), size_t(g.getMultipoleSize())); addBuf(g.getLocalPtr(), size_t(g.getLocalSize())); }
